@@ -9,6 +9,7 @@ import (
 
 	"golang.org/x/tools/go/ssa"
 
+	"ivgsa/internal/effects"
 	"ivgsa/internal/load"
 	"ivgsa/internal/report"
 	"ivgsa/internal/sym"
@@ -21,6 +22,7 @@ type Ctx struct {
 	Tier   string
 	global *sym.Mem
 	decCache map[bool][]*opSummary
+	eff      *effects.Analysis
 }
 
 // RuleFunc implements one or more rules of a property.
